@@ -19,15 +19,15 @@ open Mq (Bytes WVal WKind PropOcc VV View UserProps encU16 encBin encVb encV)
 
 /-- packet kinds by their MQTT number; 16 stands for the will properties of CONNECT -/
 abbrev Kind := Nat
-def willK : Kind := 16
+def willK : Nat := 16
 
 structure PropDef where
   id : UInt8
   ty : WKind
   /-- kinds the property may appear in -/
-  allowed : List Kind
+  allowed : List Nat
   /-- may appear more than once -/
-  repeatable : List Kind := []
+  repeatable : List Nat := []
 
 def propDefs : List PropDef := [
   { id := 0x01, ty := .bool, allowed := [3, willK] },                          -- Payload Format Indicator
@@ -69,19 +69,19 @@ def valInRange : WVal → Bool
   | _ => true
 
 /-- one occurrence is legal in packet kind `k`: a defined identifier, allowed there, of its wire type -/
-def occLegal (k : Kind) (o : PropOcc) : Bool :=
+def occLegal (k : Nat) (o : PropOcc) : Bool :=
   match propDef? o.id with
   | some d => d.allowed.contains k && d.ty == o.val.kind && valInRange o.val
   | none => false
 
 /-- at most once unless repeatable -/
-def occOnce (k : Kind) (ps : List PropOcc) : Bool :=
+def occOnce (k : Nat) (ps : List PropOcc) : Bool :=
   ps.all fun o =>
     match propDef? o.id with
     | some d => d.repeatable.contains k || (ps.filter (·.id == o.id)).length ≤ 1
     | none => false
 
-def propsLegal (k : Kind) (ps : List PropOcc) : Bool := ps.all (occLegal k) && occOnce k ps
+def propsLegal (k : Nat) (ps : List PropOcc) : Bool := ps.all (occLegal k) && occOnce k ps
 
 /-! ## §2.2.2 the property section on the wire -/
 
@@ -112,6 +112,12 @@ def subIDsOf (ps : List PropOcc) : List Nat :=
     | .vb n => if o.id = 0x0b then some n else none
     | _ => none
 
+/-- the subscription identifier of a SUBSCRIBE (at most one is legal): value of the last occurrence -/
+def subIDLast (ps : List PropOcc) : Option Nat :=
+  ps.foldl (fun cur o => match o.val with
+    | .vb n => if o.id = 0x0b then some n else cur
+    | _ => cur) none
+
 /-! ## §3 the fifteen packets -/
 
 /-- PUBACK family / DISCONNECT / AUTH short forms -/
@@ -136,20 +142,20 @@ inductive SPacket
   | publish (dup : Bool) (qos : UInt8) (retain : Bool) (topic : Bytes) (pid : UInt16)
       (props : List PropOcc) (payload : Bytes)
   /-- `k` = 4 PUBACK, 5 PUBREC, 6 PUBREL, 7 PUBCOMP -/
-  | ack (k : Kind) (pid : UInt16) (form : Form) (reason : UInt8) (props : List PropOcc)
+  | ack (k : Nat) (pid : UInt16) (form : Form) (reason : UInt8) (props : List PropOcc)
   | subscribe (pid : UInt16) (props : List PropOcc) (filters : List (Bytes × UInt8))
   /-- `k` = 9 SUBACK, 11 UNSUBACK -/
-  | suback (k : Kind) (pid : UInt16) (props : List PropOcc) (codes : Bytes)
+  | suback (k : Nat) (pid : UInt16) (props : List PropOcc) (codes : Bytes)
   | unsubscribe (pid : UInt16) (props : List PropOcc) (filters : List Bytes)
   /-- `k` = 12 PINGREQ, 13 PINGRESP -/
-  | ping (k : Kind)
+  | ping (k : Nat)
   | disconnect (form : Form) (reason : UInt8) (props : List PropOcc)
   | auth (form : Form) (reason : UInt8) (props : List PropOcc)
 deriving Repr, DecidableEq
 
 namespace SPacket
 
-def kind : SPacket → Kind
+def kind : SPacket → Nat
   | connect .. => 1 | connack .. => 2 | publish .. => 3 | ack k .. => k | subscribe .. => 8
   | suback k .. => k | unsubscribe .. => 10 | ping k => k | disconnect .. => 14 | auth .. => 15
 
@@ -282,7 +288,7 @@ def view : SPacket → View
      ("UserProperties", .ups (userPropsOf (if form = .full then ps else [])))]
   | subscribe pid ps filters =>
     [("Filters", .filters filters), ("PacketID", .n pid.toNat),
-     ("SubscriptionID", match subIDsOf ps with | [] => .i (-1) | n :: _ => .i n),
+     ("SubscriptionID", match subIDLast ps with | none => .i (-1) | some n => .i n),
      ("UserProperties", .ups (userPropsOf ps))]
   | suback _ pid ps codes =>
     [("PacketID", .n pid.toNat), ("ReasonCodes", .s codes), ("ReasonString", propVal ps 0x1f (.s [])),
